@@ -40,6 +40,8 @@ impl Display for DictKey {
 
 impl Display for Array {
     fn fmt(&self, f: &mut std::fmt::Formatter<'_>) -> std::fmt::Result {
+        #[cfg(feature = "verif")]
+        crate::verif::dict_order("display", || self.dict.keys().map(|k| k.to_string()));
         write!(
             f,
             "[{}]",
